@@ -147,6 +147,12 @@ def main(ctx):
                 space = L.make_space(sp)
                 n = min(10, int(np.prod([len(g) for g in space.param_grid])))
                 cases.append({"space": list(sp), "sampler": name, "opts": opts, "bs": 3, "seed": seed, "n": n, "pattern": "distinct"})
+    # larger-scope probes: batch size 9, history of 40 rows, 15 parameters (cheap samplers), 8 parameters with a surrogate
+    for name, opts in L.CHEAP:
+        for sp in ([0, 3, 4, 5, 8, 11, 1, 2, 6, 7, 9, 10, 0, 3, 4], [4, 8]):
+            cases.append({"space": sp, "sampler": name, "opts": opts, "bs": 9, "seed": S, "n": 40, "pattern": "ties"})
+    for name, opts in L.COSTLY[2:]:
+        cases.append({"space": [0, 3, 4, 5, 8, 11, 1, 2], "sampler": name, "opts": opts, "bs": 6, "seed": S, "n": 30, "pattern": "distinct"})
     costly = [c for c in cases if c["sampler"] in ("CORS", "GaussianProcess", "XGBoost", "RandomForest")]
     cheap = [c for c in cases if c not in costly]
     cells = [{"cases": costly[i::64]} for i in range(64)] + [{"cases": cheap[i::48]} for i in range(48)]
